@@ -577,7 +577,9 @@ func (p *Program) symbolID(tok string) int64 {
 	return (int64(h[0])<<24|int64(h[1])<<16|int64(h[2])<<8|int64(h[3]))&0x3fffffff + 0x40000000
 }
 
-func fnID(f *ssa.Function) int64 {
-	h := sha1.Sum([]byte("fn:" + fnName(f)))
+func fnID(f *ssa.Function) int64 { return fnIDByName(fnName(f)) }
+
+func fnIDByName(name string) int64 {
+	h := sha1.Sum([]byte("fn:" + name))
 	return (int64(h[0])<<24|int64(h[1])<<16|int64(h[2])<<8|int64(h[3]))&0x3fffffff + 1
 }
